@@ -348,6 +348,21 @@ def run_impl(case):
         rec = np.asarray(est.inverse_transform(S).values)
         out["recon"] = rec.reshape(rec.shape[0], -1).tolist()
         out["numint"] = np.asarray(est.transform(fd, method="NumInt")).tolist()
+    # read-only-looking calls must not write fitted state (scored with OTHER data in between)
+    snap = (S.copy(), E.copy(), np.array(est.eigenvalues, copy=True))
+    with np.errstate(all="ignore"):
+        other_fd = type(fd)(fd.argvals, type(fd.values)(3.0 * np.asarray(fd.values)[::-1, ::-1, :] + 0.125))
+        est.transform(other_fd, method="NumInt")
+        est.inverse_transform(np.asarray(est.transform(other_fd, method="NumInt")))
+        est.transform(other_fd, method="FCPTPA")
+        rec_after = np.asarray(est.inverse_transform(S).values)
+    out["readonly_ok"] = bool(
+        np.array_equal(snap[0], np.asarray(est.transform(fd, method="FCPTPA")), equal_nan=True)
+        and np.array_equal(snap[1], np.asarray(est.eigenfunctions.values), equal_nan=True)
+        and np.array_equal(snap[2], np.asarray(est.eigenvalues), equal_nan=True)
+        and np.array_equal(rec_after, rec, equal_nan=True)
+        and np.array_equal(np.asarray(est.transform(fd, method="NumInt")), np.asarray(out["numint"]), equal_nan=True)
+    )
     try:
         est.transform(fd, method="nope")
         out["bad_method"] = "accepted"
@@ -605,6 +620,8 @@ def oracle(case, impl):
         bad("terminates", f"{impl['total_calls']} updates for {case['K']} components > K(2*{mx}+1)")
     if not impl["repro"]:
         bad("reproducible", "two fits under the same global seed differ")
+    if not impl.get("readonly_ok", True):
+        bad("readonly_calls", "transform / inverse_transform on other data changed the fitted state or later results", "FCPTPA.transform", causes=["state_written_by_transform"])
     if not impl.get("data_unchanged", True):
         bad("input_unchanged", "fit changed the values of the data object it was given")
     if not impl["history_ok"]:
